@@ -424,3 +424,12 @@ def p5(ctx):
 
 
 RULES.append(p5)
+
+
+@rule("I9", doc="the canonical group variant of a node is well defined: minimisation key is name-free and separates distinct variants (C11.N1)")
+def i9(ctx):
+    from . import c11
+    c11.n1(ctx)
+
+
+RULES.append(i9)
